@@ -148,13 +148,28 @@ def parse_packed_refs(data: bytes):
     return sorted(out.items())
 
 
-def object_edges(typ: str, body: bytes) -> list[str]:
-    """Object ids a commit/tree/tag refers to (gitlinks excluded), parsed independently of dulwich."""
+def parse_shallow(data: bytes):
+    """-> sorted [hex] of a complete `shallow` file, else None."""
+    if data and not data.endswith(b"\n"):
+        return None
     out = []
+    for ln in data.split(b"\n")[:-1] if data else []:
+        if not HEX40.match(ln):
+            return None
+        out.append(ln.decode())
+    return sorted(out)
+
+
+def object_edges(typ: str, body: bytes, split=False):
+    """Object ids a commit/tree/tag refers to (gitlinks excluded), parsed independently of dulwich.
+    split=True: (non-parent references, commit parents)."""
+    out, parents = [], []
     if typ == "commit":
         for ln in body.split(b"\n\n", 1)[0].split(b"\n"):
-            if ln.startswith(b"tree ") or ln.startswith(b"parent "):
+            if ln.startswith(b"tree "):
                 out.append(ln.split(b" ", 1)[1].decode())
+            elif ln.startswith(b"parent "):
+                parents.append(ln.split(b" ", 1)[1].decode())
     elif typ == "tag":
         for ln in body.split(b"\n\n", 1)[0].split(b"\n"):
             if ln.startswith(b"object "):
@@ -168,7 +183,7 @@ def object_edges(typ: str, body: bytes) -> list[str]:
             if mode != 0o160000:
                 out.append(body[nul + 1: nul + 21].hex())
             i = nul + 21
-    return out
+    return (out, parents) if split else out + parents
 
 
 # ------------------------------------------------------------------------------------------------
@@ -198,6 +213,8 @@ def classify_path(rel: str):
         return ("ref", rel)
     if rel == "packed-refs":
         return ("packedRefs",)
+    if rel == "shallow":
+        return ("shallow",)
     if rel in ("index", "config"):
         return ("plain", rel)
     return ("other", rel)
@@ -234,11 +251,30 @@ def classify_content(kind: str, data: bytes):
             return ("packed", tuple(p))
         if kind == "packedRefs":
             return ("partial",)
+    if kind == "shallow" or (kind == "tmp" and data):
+        p = parse_shallow(data)
+        if p is not None:
+            return ("shallowSet", tuple(p))
+        if kind == "shallow":
+            return ("partial",)
     if kind == "other":
         return ("blob0",)
     if kind == "tmp" and not data:
         return ("partial",)
     return ("blob", hashlib.sha1(data).hexdigest())
+
+
+def content_of(rel: str, data: bytes):
+    """Canonical content of the file at `rel`.  A lock file `<name>.lock` is read as what it is about to become
+    (a one-line `shallow.lock` and a ref lock hold the same bytes); other temp files by trial."""
+    k = classify_path(rel)
+    if k[0] == "tmp" and rel.endswith(".lock"):
+        bk = classify_path(rel[:-5])[0]
+        if bk != "tmp":
+            if not data:
+                return ("partial",)
+            return classify_content(bk, data)
+    return classify_content(k[0], data)
 
 
 def scan(root: str):
@@ -1209,18 +1245,20 @@ class Canon:
                     objs.add(h)
             elif c[0] == "blob":
                 first(blobs, c[1])
+            elif c[0] == "shallowSet":
+                objs.update(c[1])
 
         self.start = {}
         for rel in sorted(rec.start_files):
             k = see_path(rel)
-            c = classify_content(k[0], rec.start_files[rel])
+            c = content_of(rel, rec.start_files[rel])
             see_content(c)
             self.start[rel] = c
         self.prog = []
         for call in rec.calls:
             if call[0] == "write":
                 k = see_path(call[1])
-                c = classify_content(k[0], call[2])
+                c = content_of(call[1], call[2])
                 see_content(c)
                 self.prog.append(("write", call[1], c))
             elif call[0] == "rename":
@@ -1262,18 +1300,24 @@ class Canon:
             except Exception:
                 pass
         try:
-            for h in sorted(self.objs):
+            todo = sorted(self.objs)
+            while todo:
+                h = todo.pop(0)
+                if h in self.edges:
+                    continue
+                before = set(self.objs)
                 for r in stores:
                     try:
                         tnum, raw = r.object_store.get_raw(h.encode())
                     except Exception:
                         continue
                     if _hash_ok(h, tnum, bytes(raw)):
-                        self.edges[h] = [e for e in object_edges(TYPE_NAMES[tnum].decode(), bytes(raw))]
-                        for e in self.edges[h]:
+                        self.edges[h] = object_edges(TYPE_NAMES[tnum].decode(), bytes(raw), split=True)
+                        for e in self.edges[h][0] + self.edges[h][1]:
                             if e not in self.objs:
                                 self.objs[e] = len(self.objs) + 1
                         break
+                todo += sorted(set(self.objs) - before)
         finally:
             for r in stores:
                 r.close()
@@ -1284,7 +1328,7 @@ class Canon:
             if classify_path(rel)[0] == "other" and rel not in mentioned:
                 continue
             self.known.append((self.path(rel), self.content(self.start[rel])))
-        absent = set(mentioned) | {"packed-refs"}
+        absent = set(mentioned) | {"packed-refs", "shallow"}
         for rel in list(mentioned) + list(self.start):
             k = classify_path(rel) if not rel.startswith("dir:") else ("other",)
             if k[0] in ("pack", "idx"):
@@ -1314,7 +1358,8 @@ class Canon:
         for n in sorted(rec.intent["plain"]):
             d = rec.final_files.get(n)
             self.new_plain.append((self.plains[n], None if d is None else ("blob", self.blobs[hashlib.sha1(d).hexdigest()])))
-        self.edge_terms = sorted((self.objs[h], [self.objs[e] for e in es]) for h, es in self.edges.items())
+        self.edge_terms = sorted((self.objs[h], [self.objs[e] for e in ds], [self.objs[e] for e in ps])
+                                 for h, (ds, ps) in self.edges.items())
         self.garbage = self._garbage()
 
     def path(self, rel):
@@ -1329,8 +1374,8 @@ class Canon:
             return (k[0], self.packs[k[1]])
         if k[0] == "ref":
             return ("ref", self.refs[rel])
-        if k[0] == "packedRefs":
-            return ("packedRefs",)
+        if k[0] in ("packedRefs", "shallow"):
+            return (k[0],)
         if k[0] == "plain":
             return ("plain", self.plains[k[1]])
         return ("other", self.others[rel])
@@ -1346,6 +1391,8 @@ class Canon:
             return ("refSha", self.objs[c[2]]) if c[1] == "sha" else ("refSym", self.refs[c[2]])
         if c[0] == "packed":
             return ("packed", tuple(sorted((self.refs[n], self.objs[h]) for n, h in c[1])))
+        if c[0] == "shallowSet":
+            return ("shallowSet", tuple(sorted(self.objs[h] for h in c[1])))
         if c[0] == "blob":
             return ("blob", self.blobs[c[1]])
         if c[0] == "blob0":
@@ -1373,7 +1420,7 @@ class Canon:
         for _, v in self.new_refs:
             if v is not None and v[0] == "sha":
                 roots.add(v[1])
-        em = dict(self.edge_terms)
+        em = {o: ds + ps for o, ds, ps in self.edge_terms}     # ignoring the shallow cut: a superset
         seen, todo = set(), list(roots)
         while todo:
             o = todo.pop()
@@ -1386,7 +1433,7 @@ class Canon:
     # -- rendering: Lean terms
     @staticmethod
     def lean_path(p):
-        return "Path.packedRefs" if p[0] == "packedRefs" else f"Path.{p[0]} {p[1]}"
+        return f"Path.{p[0]}" if len(p) == 1 else f"Path.{p[0]} {p[1]}"
 
     @staticmethod
     def lean_content(c):
@@ -1398,6 +1445,8 @@ class Canon:
             return f"some (Content.idxData {c[1]} {list(c[2])})"
         if c[0] == "packed":
             return "some (Content.packed [" + ", ".join(f"({a}, {b})" for a, b in c[1]) + "])"
+        if c[0] == "shallowSet":
+            return f"some (Content.shallowSet {list(c[1])})"
         return f"some (Content.{c[0]} {c[1]})"
 
     def lean_call(self, c):
@@ -1414,7 +1463,7 @@ class Canon:
 
     def lean_spec(self):
         known = ",\n      ".join(f"({self.lean_path(p)}, {self.lean_content(c)})" for p, c in self.known)
-        return ("{ edges := [" + ", ".join(f"({o}, {es})" for o, es in self.edge_terms) + "],\n"
+        return ("{ edges := [" + ", ".join(f"({o}, {ds}, {ps})" for o, ds, ps in self.edge_terms) + "],\n"
                 "    known := [\n      " + known + "],\n"
                 "    newRefs := [" + ", ".join(f"({r}, {self.lean_refv(v)})" for r, v in self.new_refs) + "],\n"
                 "    newPlain := [" + ", ".join(f"({n}, {self.lean_content(c)})" for n, c in self.new_plain) + "],\n"
@@ -1426,8 +1475,8 @@ class Canon:
     # -- rendering: driver tokens
     @staticmethod
     def tok_path(p):
-        return {"loose": "l", "pack": "p", "idx": "i", "ref": "r", "packedRefs": "P", "plain": "n", "tmp": "t",
-                "other": "x"}[p[0]] + (str(p[1]) if len(p) > 1 else "")
+        return {"loose": "l", "pack": "p", "idx": "i", "ref": "r", "packedRefs": "P", "shallow": "S", "plain": "n",
+                "tmp": "t", "other": "x"}[p[0]] + (str(p[1]) if len(p) > 1 else "")
 
     @staticmethod
     def tok_content(c):
@@ -1442,6 +1491,8 @@ class Canon:
             return f"i{c[1]}:" + ",".join(map(str, c[2]))
         if t == "packed":
             return "m" + ",".join(f"{a}:{b}" for a, b in c[1])
+        if t == "shallowSet":
+            return "h" + ",".join(map(str, c[1]))
         return {"obj": "o", "packData": "k", "refSha": "s", "refSym": "y", "blob": "b"}[t] + str(c[1])
 
     def tok_call(self, c):
@@ -1452,7 +1503,7 @@ class Canon:
         return {"unlink": "rm", "mkdir": "mk", "rmdir": "rd"}[c[0]] + ":" + self.tok_path(c[1])
 
     def tok_spec(self):
-        t = [f"e{o}:" + ",".join(map(str, es)) for o, es in self.edge_terms]
+        t = [f"e{o}:" + ",".join(map(str, ds)) + ":" + ",".join(map(str, ps)) for o, ds, ps in self.edge_terms]
         t += [f"K{self.tok_path(p)}={self.tok_content(c)}" for p, c in self.known]
         t += [f"R{r}=" + ("-" if v is None else ("s" if v[0] == "sha" else "y") + str(v[1])) for r, v in self.new_refs]
         t += [f"N{n}={self.tok_content(c)}" for n, c in self.new_plain]
@@ -1469,7 +1520,7 @@ class Canon:
             except KeyError:
                 return None
             try:
-                out[self.tok_path(p)] = self.tok_content(self.content(classify_content(k[0], data)))
+                out[self.tok_path(p)] = self.tok_content(self.content(content_of(rel, data)))
             except KeyError:
                 out[self.tok_path(p)] = "?"
         return out
